@@ -472,6 +472,26 @@ class ListImplication:
         return hyps, self.conclusion.pred(x, *ps)
 
 
+_SUB_CACHE = {}
+
+
+def _subterm_ids(e):
+    k = e.get_id()
+    hit = _SUB_CACHE.get(k)
+    if hit is None:
+        ids, stack = set(), [e]
+        while stack:
+            x = stack.pop()
+            if x.get_id() in ids:
+                continue
+            ids.add(x.get_id())
+            if z3.is_app(x):
+                stack.extend(x.children())
+        hit = (e, ids)
+        _SUB_CACHE[k] = hit
+    return hit[1]
+
+
 # elimination instances for nth terms: generated per query for the All_* facts present
 def forall_elim_facts(exprs):
     alls = collect_apps(exprs, set(ForallList._made))
@@ -482,10 +502,13 @@ def forall_elim_facts(exprs):
         fl = ForallList._made[a.decl().name()]
         l = a.arg(0)
         ps = [a.arg(i) for i in range(1, a.num_args())]
+        lid = l.get_id()
         for t in nths:
-            # the index of every nth term is tried on the list of the All_ fact (the solver relates the lists)
-            out.append(fl.elem(l, t.arg(1), *ps))
+            # indices of nth terms over this list or over a list built from it (vals/keys/ite/app ...) are tried on it
+            if lid in _subterm_ids(t.arg(0)):
+                out.append(fl.elem(l, t.arg(1), *ps))
         for t in lookups:
             # association lists: a found entry satisfies the predicate (as a (key, value) pair)
-            out.append(z3.Implies(z3.And(fl.fn(l, *ps), lookup(l, t.arg(1)) != V.Missing), fl.pred(V.Pair(t.arg(1), lookup(l, t.arg(1))), *ps)))
+            if lid in _subterm_ids(t.arg(0)):
+                out.append(z3.Implies(z3.And(fl.fn(l, *ps), lookup(l, t.arg(1)) != V.Missing), fl.pred(V.Pair(t.arg(1), lookup(l, t.arg(1))), *ps)))
     return out
